@@ -21,4 +21,4 @@ DELIVER in /tmp/seed/{name}/ :
  - patch.diff : output of `git -C /tmp/wt/{name} diff`
  - demo.py : a standalone script run as `PYTHONPATH=<tree> /venv/bin/python demo.py` that exits 0 on the unmodified tree (use PYTHONPATH=/repo, read-only, for that) and exits 1, printing what went wrong, with your change applied (PYTHONPATH=/tmp/wt/{name}); it must demonstrate a violation of the property through textX's public API (not by inspecting the source).
  - meta.json with keys: property, summary (what you changed and why it breaks the property), needs (what specific condition is needed for it to manifest), files (list of changed files), tests_run (what you ran and the outcome).
-Verify all of it yourself: demo exits 0 on /repo and 1 on your tree; the failing-test set is the same 27 as the baseline. Do not commit anything. Your final answer: a 5-line summary.""")
+Verify all of it yourself: demo exits 0 on /repo and 1 on your tree; the failing-test set is the same 27 as the baseline. Do not commit anything. NEVER use `git stash` (the stash is shared with other people's worktrees of the same repository and they are working in parallel): to get a baseline, save `git diff > /tmp/seed/{name}/patch.diff`, run `git checkout -- .`, test, then `git apply /tmp/seed/{name}/patch.diff` again — or simply use PYTHONPATH=/repo for the unmodified tree. Your final answer: a 5-line summary.""")
